@@ -1,10 +1,11 @@
 (* C17 - A clean static check means no static-class failure at run time.
    Statements only; proofs in Proofs/SoundnessProofs.v (expressions) and Proofs/ScriptSound.v (whole
    scripts). The first sentence of the property is proved for whole scripts, every variable map and
-   every store (C17_script_soundness). The second sentence (no diagnostic at all => no failure
-   because of the shape of a send-all source) is decided on every run by checking AND running
-   each generated script (correspondence, judged in Coq by prop_C17). *)
-From NS Require Import Check Eval Run SoundnessProofs ScriptSound.
+   every store (C17_script_soundness), and so is the second (C17_silent_no_shape_failure), for
+   environments in which no variable is bound to the account `world` (the checker sees the shape
+   of the source, not the values). Both are also judged on every run by checking AND running each
+   generated script (prop_C17). *)
+From NS Require Import Check Eval Run SoundnessProofs ScriptSound ShapeSound.
 
 (* whole scripts: for every complete program (what an error-free parse yields), if the checker
    reports no error-severity diagnostic then, whatever the texts given for the variables, whatever
@@ -33,7 +34,21 @@ Theorem C17_expression_soundness : forall e t s s' vs,
   outcome_ok t (eval_expr vs e).
 Proof. exact check_expression_sound. Qed.
 
+(* whole scripts, second sentence: if the checker reports NOTHING AT ALL (no error, no warning),
+   execution does not fail because of the shape of a send-all source - an allotment, @world or an
+   unbounded overdraft outside any `max` -, whatever the variables, the store and the flag, provided
+   no variable holds the account `world` *)
+Theorem C17_silent_no_shape_failure : forall p s raw sb flag,
+  check_default p [] = Ok s -> cs_diags s = [] ->
+  (forall vs rs, prepare p raw sb flag = Ok (vs, rs) -> no_world_env vs) ->
+  match run_program p raw sb flag with
+  | Err e => ~ shape_err e
+  | _ => True
+  end.
+Proof. exact check_silent_no_shape_failure. Qed.
+
 Print Assumptions C17_expression_soundness.
+Print Assumptions C17_silent_no_shape_failure.
 Print Assumptions C17_script_soundness.
 
 (* non-vacuity: [USD 1] + $m with $m : monetary is accepted silently and evaluates *)
